@@ -249,6 +249,10 @@ def getPredictor (c : Catalog) (parts : List Name) : Option PredView := getPredi
 
 def isPredictor (c : Catalog) (parts : List Name) : Bool := (getPredictor c parts).isSome
 
+/-- what one planner answers for the model references of a statement, in the order in which it meets them:
+`get_predictor` keeps no state between calls, so this is a `map` -/
+def resolveModels (c : Catalog) (refs : List (List Name)) : List (Option PredView) := refs.map (getPredictor c)
+
 /-- `get_predictor_namespace_and_name_from_identifier`: (namespace, new identifier parts);
 `none` = not a predictor / KeyError on a record without `integration_name` -/
 def predictorRef (c : Catalog) (parts : List Name) : Option (Name × List Name) :=
